@@ -152,5 +152,45 @@ func (p *Pool) Put(x interface{}) {
 // Reset empties the model pool between executions.
 func (p *Pool) Reset() { p.items = nil }
 
+// Types the package does not use today but a refactoring might: passed through
+// unchanged (their operations are not scheduling points).
 type Once = sync.Once
 type WaitGroup = sync.WaitGroup
+type Map = sync.Map
+type Locker = sync.Locker
+type Cond = sync.Cond
+
+func NewCond(l sync.Locker) *sync.Cond { return sync.NewCond(l) }
+
+func (m *RWMutex) RLocker() sync.Locker { return rlocker{m} }
+
+type rlocker struct{ m *RWMutex }
+
+func (r rlocker) Lock()   { r.m.RLock() }
+func (r rlocker) Unlock() { r.m.RUnlock() }
+
+func (m *RWMutex) TryLock() bool {
+	if !verifrt.Enabled() {
+		return m.real.TryLock()
+	}
+	verifrt.Point(SiteLock)
+	if m.writer || m.readers > 0 {
+		return false
+	}
+	m.writer = true
+	return true
+}
+
+func (m *RWMutex) TryRLock() bool {
+	if !verifrt.Enabled() {
+		return m.real.TryRLock()
+	}
+	verifrt.Point(SiteRLock)
+	if m.writer {
+		return false
+	}
+	m.readers++
+	return true
+}
+
+func (m *Mutex) TryLock() bool { return m.rw.TryLock() }
